@@ -87,12 +87,14 @@ def evaluate(case, chk):
         if ref.status == "unsupported":
             vd.skipped = "ref:" + ref.note
             return vd
-        if ref.status != "exit":
-            vd.skipped = "ref:" + ref.status
-            return vd
         if ref.guard_hits:
             vd.skipped = "write-guard"
             return vd
+        if ref.status != "exit":
+            # the staged executor did not come to an end with this code (it runs the reader to completion on its own): no
+            # reference to compare with, but the real pipeline must still terminate, without a crash, under every schedule
+            vd.notes["ref_unavailable:" + ref.status] = 1
+            ref = None
     if case.get("configs") is None:
         pilot = pool.run1(mkspec(case["args"], sched={"policy": "rtb", "seed": 1}, snapshot=True, **kw))
         vd.runs.append(pilot)
